@@ -29,6 +29,9 @@ type c02Case struct {
 	Nt  bool     `json:"nt"`
 }
 
+// Eval!ExtText: the external properties every Eval case runs with
+var evalExt = map[string]string{"p1": "x", "p2": " y "}
+
 var xpTable = []string{"", "a", "b", "*", "a/b", "..", "../a", "../b"} // Eval!XP
 
 func (t *dtree) kids(p int) []int {
@@ -76,6 +79,8 @@ func (r *schemaRenderer) body(i int) []string {
 	switch t.Kind[i-1] {
 	case "const":
 		parts = append(parts, `"const": `+jstr(t.Lit[i-1]))
+	case "external":
+		parts = append(parts, `"external": `+jstr(t.Lit[i-1]))
 	case "jsconst":
 		// a typed source: the result of a script ("int:7" -> 7, "str:x" -> 'x', ...)
 		lit := t.Lit[i-1]
@@ -285,7 +290,7 @@ func c02Replay(args []string) int {
 					}
 					continue
 				}
-				out := runTranscript(sch, strings.NewReader(in), RunOpts{MaxReads: 4})
+				out := runTranscript(sch, strings.NewReader(in), RunOpts{MaxReads: 4, Ext: evalExt})
 				sum.eval(c.Nt, M{"s": schema, "i": in})
 				var got []string
 				if out.Panic != "" {
@@ -372,7 +377,7 @@ func c02Stream(args []string) int {
 				violation("C02", "stream-schema-rejected", fmt.Sprintf("schema rejected: %v %s", e, p), M{"schema": schema})
 				continue
 			}
-			out := runTranscript(sch, strings.NewReader(in), RunOpts{MaxReads: len(c.Exp) + 3})
+			out := runTranscript(sch, strings.NewReader(in), RunOpts{MaxReads: len(c.Exp) + 3, Ext: evalExt})
 			sum.eval(c.Nt, M{"s": schema, "i": in})
 			var got [][]string
 			if out.Panic != "" || out.NewTrErr != "" {
@@ -545,7 +550,7 @@ func c02Drive(args []string) int {
 				emit(M{"kind": "schema_rejected", "schema": schema, "err": e.Error()})
 				break
 			}
-			out := runTranscript(sch, strings.NewReader(in), RunOpts{MaxReads: 4})
+			out := runTranscript(sch, strings.NewReader(in), RunOpts{MaxReads: 4, Ext: evalExt})
 			var got []string
 			if out.Panic != "" {
 				got = []string{"PANIC", out.Panic}
